@@ -5,6 +5,7 @@ import (
 	"context"
 	"encoding/binary"
 	"fmt"
+	"math"
 	"sort"
 	"strings"
 	"time"
@@ -515,7 +516,11 @@ func runBlock(r *simk.Run, f focus) *simk.Violation {
 			}
 		}
 		if c.Bool(f.headerFaults) {
-			switch c.Intn(6) {
+			switch c.Intn(7) {
+			case 6:
+				// the header timestamp is a signed field that parsing does not range-check
+				blkTS = []int64{-1, -1000, -(1 << 62), math.MinInt64, math.MinInt64 + 1}[c.Intn(5)]
+				hdrNote += "timestamp-negative "
 			case 0:
 				height = parentHeight + uint64(c.Intn(3))*2 // parent, parent+2, parent+4... or equal
 				hdrNote += "wrong-height "
